@@ -23,6 +23,7 @@ spec fn seen_is<P: AsRef<[u8]>, V, W>(n: NfaBuilder<u8, W>, items: Seq<(P, V)>, 
 // They mutate states through RefCell from &self, which Verus cannot express; under R9 the stubs take &mut self.
 // The bounded stand-in evaluates exactly these clauses (and the stronger Aho-Corasick ones) on every NFA it builds.
 //@include ghost_pass.rs
+//@include ghost_lf.rs
 impl<V: Copy> NfaBuilder<u8, V> {
     // contracts proved on the real functions by the unit pass_bw (same text: pass_heads.inc)
     #[verifier::external_body]
@@ -282,6 +283,8 @@ spec fn bwv_post<P: AsRef<[u8]>, V>(st: Seq<State>, outs: Seq<Output<V>>, num_st
             // all kinds: the trie facts from which the soundness of the leftmost stream follows (units lm_sound_*)
             && add_inv(n) && nfa_tree(n) && nfa_links(n, lm_of(kind)) && sound_facts(n)
             && (!(kind is Standard) ==> lm_opt_facts(n))
+            // C04: the registered patterns in terms of the input order (a pattern is not registered only if an earlier, registered proper prefix shadows it)
+            && lf_inv(n, item_pats(items), items.len() as int)
             && values_are(n, items, items.len() as int)
             && (kind is Standard ==> searches_ok(st, outs, n))
             && (!(kind is Standard) ==> lm_searches_ok(st, outs, n))
@@ -294,7 +297,7 @@ proof fn lemma_bwv_post<P: AsRef<[u8]>, V>(nfa: NfaBuilder<u8, V>, st: Seq<State
         // from build_double_array
         da_safe(st), exists|idmap: Seq<u32>| bw_built(st, nfa, idmap),
         // the state count
-        nfa.states@.len() == num_states + 1, add_inv(nfa), nfa.match_kind == kind, sound_facts(nfa), !(kind is Standard) ==> lm_opt_facts(nfa),
+        nfa.states@.len() == num_states + 1, add_inv(nfa), nfa.match_kind == kind, sound_facts(nfa), !(kind is Standard) ==> lm_opt_facts(nfa), lf_inv(nfa, item_pats(items), items.len() as int),
     ensures bwv_post(st, nfa.outputs@, num_states, items, kind),
 {
     reveal(bwv_post);
